@@ -236,6 +236,9 @@ class H2Server(TimerMixin, Peer):
         self.owed_conn = 0
         self.events = [dict(e) for e in self.hcfg.get("events", ())]
         self.goaway_sent = False
+        self.goaway_last = 0
+        self.refused = set()
+        self.close_when_drained = False
 
     def on_open(self, now):
         self.ledger = FrameLedger(self.w, self.wire.id, self.label)
@@ -280,6 +283,12 @@ class H2Server(TimerMixin, Peer):
         self.closed = True
         self._timers = []
 
+    def _maybe_close_drained(self, now):
+        if self.close_when_drained and not self.pending and not (
+                self.ledger.open_srv - self.refused):
+            self._flush(now)
+            self._close(now + 0.002)
+
     # -- events from the plan ------------------------------------------------------
     def _fire(self, now, ev):
         if self.closed or ev.get("done"):
@@ -315,7 +324,16 @@ class H2Server(TimerMixin, Peer):
                     last = int(mode)
                 self.goaway_sent = True
                 self.goaway_last = last
-                self.c.close_connection(error_code=ev.get("code", 0), last_stream_id=last)
+                # graceful shutdown: the GOAWAY frame is written by hand so that h2's
+                # server state machine keeps serving the streams <= last_stream_id
+                import hyperframe.frame as hf
+
+                self._flush(now)
+                f = hf.GoAwayFrame(0)
+                f.last_stream_id = last
+                f.error_code = ev.get("code", 0)
+                if not self.closed:
+                    self.wire.push(now + self.hcfg.get("lat", 0.0005), f.serialize())
                 w.log("h2_srv_goaway", self.wire.id, last, tuple(sids))
                 w.probes["h2_goaway"] += 1
                 # refused streams are dropped by the server
@@ -323,9 +341,13 @@ class H2Server(TimerMixin, Peer):
                     if sid > last:
                         del self.pending[sid]
                         self.ledger.server_ended(sid)
-                if ev.get("close", True) and not self.pending:
-                    self._flush(now)
-                    self._close(now + 0.001)
+                for sid in sids:
+                    if sid > last:
+                        self.refused.add(sid)
+                        self.ledger.server_ended(sid)
+                if ev.get("close", True):
+                    self.close_when_drained = True
+                    self._maybe_close_drained(now)
             elif do == "rst":
                 sids = sorted(s for s in self.ledger.streams if s in self.ledger.open_srv)
                 if sids:
@@ -386,8 +408,11 @@ class H2Server(TimerMixin, Peer):
                 self._credit(now, ev.stream_id, n)
             elif isinstance(ev, h2.events.StreamEnded):
                 tok = self.tokens.get(ev.stream_id)
-                w.processed[tok] = w.processed.get(tok, 0) + 1
-                if not (self.goaway_sent and ev.stream_id > self.goaway_last):
+                if self.goaway_sent and ev.stream_id > self.goaway_last:
+                    self.refused.add(ev.stream_id)
+                    self.ledger.server_ended(ev.stream_id)
+                else:
+                    w.processed[tok] = w.processed.get(tok, 0) + 1
                     self._respond(now, ev.stream_id)
             elif isinstance(ev, h2.events.WindowUpdated):
                 self._pump(now)
@@ -408,7 +433,8 @@ class H2Server(TimerMixin, Peer):
             self.at(now + self.hcfg.get("wu_delay", 0.3),
                     lambda t, sid=sid, n=n: self._grant(t, sid, n, n, flush=True))
         elif pol == "tiny":
-            step = self.hcfg.get("wu_step", 7)
+            # at most 16 increments per DATA frame keeps large uploads tractable
+            step = max(self.hcfg.get("wu_step", 7), (n + 15) // 16)
             k = 0
             left = n
             while left > 0:
@@ -562,6 +588,7 @@ class H2Server(TimerMixin, Peer):
                     self.ledger.server_ended(sid)
                     progress = True
         self._flush(now)
+        self._maybe_close_drained(now)
 
     def _truncate(self, now, sid, plan):
         kind = plan.get("trunc_kind", "eof")
